@@ -28,6 +28,8 @@ from ..cfg import explore, must_facts, canon_fact, holds
 from ..rules import call_sites, node_calls, require_before, tainted_names, mentions, event_facts
 from ..mutate import mutate, remove_stmts, replace_expr, replace_stmt, parse_stmt, parse_expr
 from ..model import AnalysisError
+from ..x_sites import method_calls
+from ..x_flow import expand_locals
 from ..x_peval import STOP, UNK, make_resolver, pure_self_methods, peval, pfold, prep, partition, predicates_on, try_fold
 
 TECHNIQUE = "partial evaluation of the CFG over the partitioned (version, method, status, Content-Length, disconnect) space + guard-dominance/typestate on the length guard"
@@ -393,86 +395,75 @@ def _flatten_add(e):
     return [e]
 
 
+def _is_stream_close(c):
+    return q.is_call(c, "self.stream.close")
+
+
+CLOSED_CALL = "call:self.stream.closed()"
+
+
 def check_format_chunk(ck):
+    """Exhaustive concrete evaluation of _format_chunk over a small domain of
+    (expected remaining, chunk, chunking): whatever the shape of the code
+    (aliases, inverted branches, temporaries), the *outcome* must be the
+    reference one.  Chunk of 26 bytes distinguishes hex ("1a") from decimal."""
+    import re as _re
+
     fi = ck.func(H1, CONN + "._format_chunk")
     ps = fi.params()
     if len(ps) != 2:
         raise AnalysisError("_format_chunk signature changed: %s" % ps)
     chunk = ps[1]
     cfg = fi.cfg
-    decs = cfg.stmt_nodes(lambda n: n.kind == "stmt" and isinstance(n.ast, ast.AugAssign) and q.dotted(n.ast.target) == ECR)
-    ck.floor("C02.length-guard", len(decs), 1, "updates of _expected_content_remaining in _format_chunk")
-    for d in decs:
-        v = d.ast.value
-        ok = isinstance(d.ast.op, ast.Sub) and q.is_call(v, "len") and len(v.args) == 1 and q.dotted(v.args[0]) == chunk
-        ck.ob("C02.length-guard", fi, d.ast, ok, "the expected length is decreased by exactly len(%s)" % chunk)
-    dec_ids = {d.id for d in decs}
+    resolver = make_resolver(ck.repo, H1, CONN)
+    known = {m: None for m in pure_self_methods(ck.repo, H1, CONN)}
+    raise_nodes = cfg.stmt_nodes(lambda n: n.kind == "stmt" and isinstance(n.ast, ast.Raise))
+    ret_nodes = cfg.stmt_nodes(lambda n: n.kind == "stmt" and isinstance(n.ast, ast.Return))
+    n_val = 0
+    for remaining in (None, 0, 3, 26, 40):
+        for data in (b"", b"abc", b"a" * 26):
+            for chunking in (False, True):
+                n_val += 1
 
-    def transfer(n, val):
-        return True if n.id in dec_ids else val
+                def hook(n, env):
+                    if n.kind in ("stmt", "test") and n.ast is not None and any(_is_stream_close(c) for c in q.calls(n.ast)):
+                        env["@closed"] = True
+                    return None
 
-    seen = explore(cfg, False, transfer, lambda t: _only_ecr(t), follow_exc=False)
-    rets = cfg.stmt_nodes(lambda n: n.kind == "stmt" and isinstance(n.ast, ast.Return))
-    ck.floor("C02.length-guard", len(rets), 1, "returns in _format_chunk")
-    n_states = 0
-    for r in rets:
-        for facts, dec in sorted(seen.get(r.id, ()), key=repr):
-            n_states += 1
-            unlimited = (canon_fact(ast.parse(ECR + " is None", mode="eval").body, True) in facts)
-            if unlimited:
-                ck.ob("C02.length-guard", fi, r.ast, not dec, "no declared length: data returned without accounting", construct="return with length None after decrement")
-                continue
-            over_rejected = dec and _excludes(facts, -1) and _excludes(facts, -1000)
-            exact_ok = _consistent(facts, 0) and _consistent(facts, 5)
-            ck.ob("C02.length-guard", fi, r.ast, over_rejected, "data is returned only after the decrement and a check that rejects a negative remainder (more data than Content-Length)",
-                  construct="return of data without over-length rejection")
-            ck.ob("C02.length-guard", fi, r.ast, exact_ok, "a write that exactly fills (or stays below) Content-Length is accepted",
-                  construct="return path rejects an exact-length write")
-    ck.floor("C02.length-guard", n_states, 2, "return states in _format_chunk")
-    raises = cfg.stmt_nodes(lambda n: n.kind == "stmt" and isinstance(n.ast, ast.Raise))
-    for r in raises:
-        for facts, dec in sorted(seen.get(r.id, ()), key=repr):
-            ck.ob("C02.length-guard", fi, r.ast, dec and _excludes(facts, 0) and _excludes(facts, 5), "the over-length error is raised only for a negative remainder", construct="exact-length write rejected")
-    require_before(ck, "C02.close-before-raise", fi, lambda n: n.kind == "stmt" and isinstance(n.ast, ast.Raise), node_calls("self.stream.close"),
-                   "the stream is closed before HTTPOutputError is raised (no further bytes can follow a broken frame)")
-    # wire format of a chunk
-    facts = must_facts(cfg)
-    formatted = []
-    for r in rets:
-        parts = _flatten_add(r.ast.value) if r.ast.value is not None else []
-        if len(parts) > 1 and any(q.dotted(p) == chunk for p in parts):
-            formatted.append((r, parts))
-    ck.floor("C02.chunk-format", len(formatted), 1, "chunk-coded return in _format_chunk")
-    for r, parts in formatted:
-        crlf = lambda e: isinstance(e, ast.Constant) and e.value == b"\r\n"
-        shape = len(parts) == 4 and crlf(parts[1]) and q.dotted(parts[2]) == chunk and crlf(parts[3])
-        ck.ob("C02.chunk-format", fi, r.ast, shape, "chunk = size CRLF data CRLF")
-        if shape:
-            size = parts[0]
-            if isinstance(size, ast.Name):
-                defs = [st for st in q.walk_body(fi.node) if isinstance(st, (ast.Assign, ast.AnnAssign)) and size.id in q.assigned_paths(st) and st.value is not None]
-                if len(defs) == 1:
-                    size = defs[0].value
-            mods = [m for m in ast.walk(size) if isinstance(m, ast.BinOp) and isinstance(m.op, ast.Mod) and isinstance(m.left, ast.Constant)]
-            if len(mods) != 1:
-                raise AnalysisError("chunk size is not produced by a %%-format of len(%s): %s" % (chunk, q.unparse(parts[0])))
-            m = mods[0]
-            fmt = m.left.value
-            if isinstance(fmt, bytes):
-                fmt = fmt.decode("latin1")
-            arg = m.right
-            ck.ob("C02.chunk-format", fi, m, fmt in ("%x", "%X") and q.is_call(arg, "len") and q.dotted(arg.args[0]) == chunk, "chunk size is the bare hexadecimal length of the data")
-        f = facts[r.id]
-        ck.ob("C02.chunk-format", fi, r.ast, holds(f, CHUNKING, True), "chunk framing is applied only when _chunking_output is set", construct="chunk framing without _chunking_output")
-        ck.ob("C02.chunk-format", fi, r.ast, holds(f, chunk, True), "an empty chunk is never chunk-framed (it would be the last-chunk marker)", construct="empty chunk framed as last-chunk")
-    plain = [r for r in rets if r.ast.value is not None and q.dotted(r.ast.value) == chunk]
-    ck.floor("C02.chunk-format", len(plain), 1, "identity return in _format_chunk")
-    # when chunking and the chunk is non-empty, the identity return must not be reachable
-    seen2 = explore(cfg, None, lambda n, v: v, lambda t: t in (CHUNKING, chunk), follow_exc=False)
-    for r in plain:
-        for fcts, _ in seen2.get(r.id, ()):
-            bad = (CHUNKING, True) in fcts and (chunk, True) in fcts
-            ck.ob("C02.chunk-format", fi, r.ast, not bad, "non-empty data is never sent unframed while chunking", construct="unframed data while chunking")
+                init = {ECR: remaining, chunk: data, CHUNKING: chunking, "@closed": False, "@resolve": resolver}
+                states = peval(cfg, init, hook=hook, known_self_methods=known, track=lambda t: True)
+                label = "remaining=%r len(chunk)=%d chunking=%s" % (remaining, len(data), chunking)
+                after = None if remaining is None else remaining - len(data)
+                raised = [(r, env) for r in raise_nodes for _f, env in states.get(r.id, [])]
+                returned = []
+                for r in ret_nodes:
+                    for _f, env in states.get(r.id, []):
+                        v = try_fold(r.ast.value, env) if r.ast.value is not None else None
+                        returned.append((r, env, v))
+                if not raised and not returned:
+                    raise AnalysisError("_format_chunk: neither return nor raise reached under " + label)
+                if after is not None and after < 0:
+                    ck.ob("C02.length-guard", fi, fi.node, not returned, "more data than the declared Content-Length is never returned for writing (%s)" % label, construct="over-length data accepted")
+                    for r, env in raised:
+                        ck.ob("C02.close-before-raise", fi, r.ast, env.get("@closed") is True, "the stream is closed before HTTPOutputError is raised (no further bytes can follow a broken frame; %s)" % label)
+                    continue
+                ck.ob("C02.length-guard", fi, fi.node, not raised, "data within the declared length (or without a declared length) is accepted (%s)" % label, construct="exact-length write rejected" if after == 0 else "in-bounds write rejected")
+                for r, env, v in returned:
+                    got = env.get(ECR, UNK)
+                    if got is UNK:
+                        raise AnalysisError("_format_chunk: remaining length not determined at return under " + label)
+                    ck.ob("C02.length-guard", fi, r.ast, got == after and (got is None) == (after is None), "the expected remaining length is decreased by exactly len(chunk) (%s -> %r)" % (label, got),
+                          construct="remaining length after write: expected %r" % ("unchanged None" if after is None else "remaining - len(chunk)"))
+                    if v is UNK or not isinstance(v, (bytes, type(None))):
+                        raise AnalysisError("_format_chunk: returned bytes cannot be evaluated under %s (%s)" % (label, q.unparse(r.ast.value) if r.ast.value is not None else "None"))
+                    if chunking and data:
+                        ok = isinstance(v, bytes) and _re.fullmatch(rb"0*%x\r\n" % len(data) + _re.escape(data) + rb"\r\n", v, _re.I) is not None
+                        ck.ob("C02.chunk-format", fi, r.ast, ok, "while chunking a non-empty chunk is framed as <hex size> CRLF <data> CRLF (%s -> %r)" % (label, v[:12] if isinstance(v, bytes) else v),
+                              construct="chunk framing wrong for non-empty data")
+                    else:
+                        ck.ob("C02.chunk-format", fi, r.ast, v == data, "without chunking, and for an empty chunk (which would be the last-chunk marker), the data is returned unframed (%s -> %r)" % (label, v[:12] if isinstance(v, bytes) else v),
+                              construct="data altered although %s" % ("not chunking" if not chunking else "chunk is empty"))
+    ck.floor("C02.length-guard", n_val, 30, "valuations of _format_chunk")
 
 
 # ---------------------------------------------------------------------------
@@ -565,52 +556,59 @@ CLOSED = "self.stream.closed()"
 
 
 def check_conn_finish(ck):
+    """Exhaustive concrete evaluation of HTTP1Connection.finish over
+    (expected remaining, stream closed, chunking)."""
     fi = ck.func(H1, CONN + ".finish")
     cfg = fi.cfg
-    writes = call_sites(fi, "self.stream.write")
+    resolver = make_resolver(ck.repo, H1, CONN)
+    known = {m: None for m in pure_self_methods(ck.repo, H1, CONN)}
+    writes = [(n, c) for n, c in cfg.find(lambda x: q.is_call(x, "self.stream.write"))]
     for node, c in writes:
         ck.ob("C02.terminator", fi, c, _is_last_chunk(c), "the only bytes finish() writes are the last-chunk marker 0 CRLF CRLF")
     term_ids = {}
     for node, c in writes:
-        if _is_last_chunk(c):
-            term_ids[node.id] = term_ids.get(node.id, 0) + 1
-    done = cfg.stmt_nodes(lambda n: n.kind == "stmt" and isinstance(n.ast, ast.Assign) and "self._write_finished" in q.assigned_paths(n.ast) and isinstance(n.ast.value, ast.Constant) and n.ast.value.value is True)
-    ck.floor("C02.short-body", len(done), 1, "'_write_finished = True' in finish")
+        term_ids[node.id] = term_ids.get(node.id, 0) + 1
+    done_nodes = cfg.stmt_nodes(lambda n: n.kind == "stmt" and isinstance(n.ast, ast.Assign) and "self._write_finished" in q.assigned_paths(n.ast) and isinstance(n.ast.value, ast.Constant) and n.ast.value.value is True)
+    raise_nodes = cfg.stmt_nodes(lambda n: n.kind == "stmt" and isinstance(n.ast, ast.Raise))
+    done_ids = {n.id for n in done_nodes}
+    n_val = 0
+    for remaining in (None, 0, 4):
+        for closed in (False, True):
+            for chunking in (False, True):
+                n_val += 1
+                snaps = []
 
-    def transfer(n, val):
-        return min(val + term_ids.get(n.id, 0), 2)
+                def hook(n, env, snaps=snaps):
+                    if n.kind in ("stmt", "test") and n.ast is not None and any(_is_stream_close(c) for c in q.calls(n.ast)):
+                        env["@closed-by-finish"] = True
+                        env[CLOSED_CALL] = True
+                    if n.id in term_ids:
+                        env["@terms"] = env.get("@terms", 0) + term_ids[n.id]
+                    if n.id in done_ids:
+                        snaps.append(dict(env))
+                    return None
 
-    seen = explore(cfg, 0, transfer, lambda t: _only_ecr(t) or t in (CLOSED, CHUNKING), follow_exc=False)
-    n_states = 0
-    for d in done:
-        for facts, terms in sorted(seen.get(d.id, ()), key=repr):
-            n_states += 1
-            closed = (CLOSED, True) in facts
-            short_possible = _consistent(facts, 1) and _consistent(facts, 700)
-            ck.ob("C02.short-body", fi, d.ast, closed or not short_possible,
-                  "the response is marked finished only when no declared bytes are missing (or the stream is already closed)", construct="finish with bytes missing")
-            chunking_t = (CHUNKING, True) in facts
-            chunking_f = (CHUNKING, False) in facts
-            if terms == 1:
-                ck.ob("C02.terminator", fi, d.ast, chunking_t, "the last-chunk marker is written only when the body is chunk-coded", construct="last-chunk without chunking")
-            elif terms == 0:
-                ck.ob("C02.terminator", fi, d.ast, chunking_f or closed, "a chunk-coded body on an open stream is always terminated by the last-chunk marker", construct="chunked body not terminated")
-            else:
-                ck.ob("C02.terminator", fi, d.ast, False, "the last-chunk marker is written once", construct="last-chunk written twice")
-    ck.floor("C02.short-body", n_states, 3, "states at '_write_finished = True'")
-    raises = cfg.stmt_nodes(lambda n: n.kind == "stmt" and isinstance(n.ast, ast.Raise))
-    for r in raises:
-        for facts, _ in sorted(seen.get(r.id, ()), key=repr):
-            ck.ob("C02.short-body", fi, r.ast, _excludes(facts, 0) and _excludes(facts, None), "the short-body error is raised only when declared bytes are missing (remaining neither 0 nor None)",
-                  construct="complete body rejected")
-    require_before(ck, "C02.close-before-raise", fi, lambda n: n.kind == "stmt" and isinstance(n.ast, ast.Raise), node_calls("self.stream.close"),
-                   "the stream is closed before HTTPOutputError is raised for a short body")
-    # the short-body raise must come before the terminator (a terminator after a short body would look like a complete response)
-    for node, c in writes:
-        if _is_last_chunk(c):
-            for facts, _ in seen.get(node.id, ()):
-                short_possible = _consistent(facts, 1)
-                ck.ob("C02.short-body", fi, c, not short_possible or (CLOSED, True) in facts, "the short-body check precedes the last-chunk marker", construct="last-chunk before short-body check")
+                init = {ECR: remaining, CLOSED_CALL: closed, CHUNKING: chunking, "@terms": 0, "@closed-by-finish": False, "@resolve": resolver}
+                states = peval(cfg, init, hook=hook, known_self_methods=known, track=lambda t: True)
+                label = "remaining=%r stream_closed=%s chunking=%s" % (remaining, closed, chunking)
+                raised = [(r, env) for r in raise_nodes for _f, env in states.get(r.id, [])]
+                short = remaining not in (None, 0) and not closed
+                if not raised and not snaps:
+                    raise AnalysisError("HTTP1Connection.finish: neither the completion mark nor a raise is reached under " + label)
+                if short:
+                    ck.ob("C02.short-body", fi, fi.node, not snaps, "a response with declared bytes missing on an open stream is not marked finished (%s)" % label, construct="finish with bytes missing")
+                    for r, env in raised:
+                        ck.ob("C02.close-before-raise", fi, r.ast, env.get("@closed-by-finish") is True, "the stream is closed before HTTPOutputError is raised for a short body (%s)" % label)
+                        ck.ob("C02.short-body", fi, r.ast, env.get("@terms", 0) == 0, "no last-chunk marker precedes the short-body error (%s)" % label, construct="last-chunk before short-body check")
+                    continue
+                ck.ob("C02.short-body", fi, fi.node, not raised, "a complete body (or an already closed stream) is not rejected (%s)" % label, construct="complete body rejected")
+                for env in snaps:
+                    terms = env.get("@terms", 0)
+                    want = 1 if (chunking and not closed) else 0
+                    ck.ob("C02.terminator", fi, fi.node, terms == want, "the last-chunk marker is written exactly when the body is chunk-coded and the stream open (%s: written %d time(s))" % (label, terms),
+                          construct="last-chunk marker count %s: chunking=%s closed=%s" % ("too low" if terms < want else "too high", chunking, closed))
+    ck.floor("C02.short-body", n_val, 12, "valuations of HTTP1Connection.finish")
+    ck.floor("C02.short-body", len(done_nodes), 1, "'_write_finished = True' in finish")
 
 
 # ---------------------------------------------------------------------------
@@ -798,7 +796,8 @@ def check_handler_finish(ck):
             ck.ob("C02.finish-content-length", fi, c, v is not None and _buffer_length_expr(fi, v), "the computed Content-Length is the total byte length of the unflushed buffer (what a GET would carry)")
     ck.floor("C02.finish-content-length", n_cl, 1, "Content-Length computations in RequestHandler.finish")
     # ordering: flush (which emits headers+body) precedes connection.finish()
-    n = require_before(ck, "C02.finish-content-length", fi, node_calls("self.request.connection.finish"), node_calls("self.flush"), "the buffer is flushed before the connection is told the response is complete")
+    cf_ids = {n.id for n, _c in method_calls(fi, "finish", "self.request.connection")}
+    n = require_before(ck, "C02.finish-content-length", fi, lambda n: n.id in cf_ids, node_calls("self.flush"), "the buffer is flushed before the connection is told the response is complete")
     ck.floor("C02.finish-content-length", n, 1, "connection.finish() calls")
 
 
@@ -836,7 +835,7 @@ def check_finish_order(ck):
     ck.floor("C02.finish-order", k, 3, "uses of the write buffer in finish")
     # connection.finish() after the flush on every normal path
     fl = {n.id for n, _ in call_sites(fi, "self.flush")}
-    cf = {n.id for n, _ in call_sites(fi, "self.request.connection.finish")}
+    cf = {n.id for n, _ in method_calls(fi, "finish", "self.request.connection")}
 
     def t2(n, val):
         flushed, done = val
@@ -877,7 +876,7 @@ def check_buffer_consumed(ck):
     facts = event_facts(fi, {"reset": _resets_buffer}, cond_facts=False)
     derived = tainted_names(fi, [WB])
     n = 0
-    for node, c in call_sites(fi, CONNECTION + ".write_headers") + call_sites(fi, CONNECTION + ".write"):
+    for node, c in method_calls(fi, "write_headers", CONNECTION) + method_calls(fi, "write", CONNECTION):
         n += 1
         a = q.arg(c, 2, "chunk") if q.call_attr(c) == "write_headers" else q.arg(c, 0, "chunk")
         ck.ob("C02.buffer-consumed", fi, c, ("@reset", True) in facts[node.id], "the write buffer was emptied on every path before its content is handed to the connection", construct="buffer not emptied before writing: " + q.call_attr(c))
@@ -901,8 +900,8 @@ CONNECTION = "self.request.connection"
 def check_handler_flush(ck):
     fi = ck.func(WEB, RH + ".flush")
     effects, _ = _handler_effects(ck)
-    wh_calls = call_sites(fi, CONNECTION + ".write_headers")
-    w_calls = call_sites(fi, CONNECTION + ".write")
+    wh_calls = method_calls(fi, "write_headers", CONNECTION)
+    w_calls = method_calls(fi, "write", CONNECTION)
     ck.floor("C02.headers-once", len(wh_calls), 1, "connection.write_headers calls in flush")
     ck.floor("C02.head-discard", len(w_calls), 1, "connection.write calls in flush")
     wh_ids = {n.id: c for n, c in wh_calls}
